@@ -1,12 +1,11 @@
-import YaclibModel.Proofs.CoSharedMutex
+import YaclibModel.Proofs.CoSharedMutexS_rdFadd_1
+import YaclibModel.Proofs.CoSharedMutexS_rdFadd_2
 namespace Yaclib.CoSharedMutex
 
-set_option maxHeartbeats 4000000 in
 theorem inv_rdFadd {cfg : Cfg} {s : State} (hi : Inv cfg s) (c : Cid) (h : s.pc c = .idle) (ht : s.todo c ≠ []) (ho : curOp s c = .rd) :
     Inv cfg ((doRdFadd s c)) := by
-  cases hi
   by_cases hW : s.W = 0
-  · simp only [doRdFadd, hW, ↓reduceIte]; sm_auto [List.count_le_length]
-  · simp only [doRdFadd, hW, ↓reduceIte]; sm_auto [List.count_le_length]
+  · exact inv_rdFadd_1 hi c h ht ho hW
+  · exact inv_rdFadd_2 hi c h ht ho hW
 
 end Yaclib.CoSharedMutex
